@@ -64,6 +64,11 @@ package functioncontracts
 //@ -- iteration are forgotten (phiNilness[j] is what the table knew about the edge value of phis[j])
 //@ assume ssa-phi-semantics-on-back-edges (soundFact (iface *ssa.Phi (local phi)) (idx (local phiNilness) (local j)))
 //@ loop 2 step propagated-table-is-a-private-copy (newinloop (local nTable))
+//@ -- a block whose table set received ANY new table is propagated to its successors: the update flag remembers every
+//@ -- successful add, not only the last one (defect F23: the flag was overwritten by each add and the predecessors were
+//@ -- visited in map order, so a revisited join / loop header was sometimes not propagated and a function returning
+//@ -- nil after a loop got a contract in some runs)
+//@ loop 12 step update-flag-remembers-every-added-table (and (=> (athead isUpdated) isUpdated) (=> (and (> (calls "functioncontracts.add") 0) (callres "functioncontracts.add" 1)) isUpdated))
 
 //@ -- C20 (first sentence: an inferred contract is true of EVERY execution): deriveContracts looks for a
 //@ -- counterexample among the returns, so every return instruction must be checked against at least one nilness
